@@ -46,7 +46,8 @@ const REPEATS: usize = 6;
 
 fn criterion() -> BoxedStrategy<Criterion> {
     prop_oneof![
-        2 => (unit3(), unif(0.05, PI)).prop_map(|(dir, angle)| Criterion::Facing { dir, angle }),
+        // the direction is any non-zero vector, not necessarily of unit length: only its direction may matter
+        2 => (unit3(), prop_oneof![1 => Just(1.0), 1 => logu(-3.0, 3.0)], unif(0.05, PI)).prop_map(|(d, l, angle)| Criterion::Facing { dir: [d[0] * l, d[1] * l, d[2] * l], angle }),
         5 => (any::<bool>(), logu(-1.3, 0.5), prop::option::of(logu(-1.5, 0.3)), prop::option::of(unif(0.05, 2.0))).prop_map(|(all_points, dist, planar, angle)| Criterion::NearMesh { all_points, dist, planar, angle }),
     ]
     .boxed()
